@@ -236,6 +236,14 @@ def c16_case(draw):
         if draw(st.booleans()):
             c['lin'].append({'A': [[0.0] * c['n']], 'b': [5.0], 'sense': 'le', 'style': 0})     # empty row
         c['obj']['c'] = [draw(st.sampled_from(ODD + [0.0])) for _ in range(c['n'])]
+        # finite bounds that need more than six significant digits
+        for b in c['bounds']:
+            if b[1] is not None and b[1] != 0 and draw(st.integers(0, 2)) == 0:
+                b[1] = -draw(st.sampled_from([1234567.0, 19999.99, 12345.678, 0.1234567891, 7.0000001]))
+            if b[2] is not None and b[2] != 0 and draw(st.integers(0, 2)) == 0:
+                b[2] = draw(st.sampled_from([1234567.0, 19999.99, 12345.678, 0.1234567891, 7.0000001]))
+            if b[0] == 'fix' and b[1] != b[2]:
+                b[2] = b[1]
     return c
 
 
